@@ -216,6 +216,9 @@ def _case(draw):
             e = draw(gen.any_element(kind, subtype, nonfinite, False))
             if wide:
                 e = _widen(draw, kind, e, lim)
+            if kind in ('multiline', 'polygon') and isinstance(e, list) and e and draw(st.integers(0, 4)) == 0:
+                # more parts than coordinates: a run of empty lines / rings in front (offsets arrays longer than the values)
+                e = [[] for _ in range(draw(st.integers(1, 12)))] + e
             els.append(e)
     t = [draw(st.integers(-7, 7)), draw(st.integers(-7, 7))] if draw(st.booleans()) else None
     return {'kind': kind, 'subtype': subtype, 'elements': els, 'reback': draw(st.sampled_from(model.REBACKINGS)),
